@@ -563,6 +563,15 @@ def getslice(it, fr, o, lo, hi, step):
             top = o.n if hi is None else z3.If(o.n < hi, o.n, z3.IntVal(hi))
             it.eng.add(n == z3.If(top - lo_ < 0, z3.IntVal(0), top - lo_))
             return SStr(n, chars, f'{o.name}[{lo_}:{hi}]' if o.name else '')
+    if isinstance(o, SBytes) and unrollable(o) and step is None and (lo is None or isinstance(lo, int)) and (hi is None or isinstance(hi, int)):
+        lo_ = lo or 0
+        c = cap(o)
+        if lo_ >= 0 and (hi is None or hi >= 0):
+            hi_ = c if hi is None else min(hi, c)
+            ln = bytes_len(it, o)
+            top = ln if hi is None else z3.If(ln < hi, ln, z3.IntVal(hi))
+            n = z3.If(top - lo_ < 0, z3.IntVal(0), top - lo_)
+            return SBytes('raw', n=n, bs=[byte_at(o, j) for j in range(lo_, hi_)], name='')
     raise Unsupported('slice of symbolic value')
 
 
@@ -1380,6 +1389,32 @@ def sp_pack(it, fr, fmt, *vals):
     raise Unsupported('struct.pack ' + repr(fmt))
 
 
+def sp_int_from_bytes(it, fr, b, byteorder='big', **kw):
+    b = fr.split(b)
+    byteorder = kw.get('byteorder', byteorder)
+    if kw.get('signed'):
+        raise Unsupported('int.from_bytes(signed=True)')
+    if isinstance(b, SBytes) and unrollable(b) and cap(b) <= 8 and byteorder in ('big', 'little'):
+        c = cap(b)
+        ln = bytes_len(it, b)
+        val = z3.IntVal(0)
+        for n in range(1, c + 1):
+            if byteorder == 'big':
+                v = z3.Sum([byte_at(b, j) * (256 ** (n - 1 - j)) for j in range(n)])
+            else:
+                v = z3.Sum([byte_at(b, j) * (256 ** j) for j in range(n)])
+            val = z3.If(ln == n, v, val)
+        return SInt(val)
+    if isinstance(b, Sym):
+        if issubclass(_pt(b), bytes):
+            raise Unsupported('int.from_bytes of opaque bytes')
+        raise PyExc(TypeError(f"cannot convert '{_pt(b).__name__}' object to bytes"))
+    try:
+        return int.from_bytes(b, byteorder, **kw)
+    except Exception as e:
+        raise PyExc(e)
+
+
 def sp_int_to_bytes(it, fr, x, length=1, byteorder='big', **kw):
     x = fr.split(x)
     length = kw.get('length', length)
@@ -1446,7 +1481,7 @@ SPECIAL = {
     print: sp_print, id: sp_id, hash: sp_hash, callable: sp_callable,
     bytes.fromhex: sp_fromhex, binascii.unhexlify: sp_unhexlify, binascii.a2b_hex: sp_unhexlify,
     binascii.hexlify: sp_hexlify, binascii.b2a_hex: sp_hexlify,
-    struct.pack: sp_pack, datetime.datetime.strptime: sp_strptime,
+    struct.pack: sp_pack, datetime.datetime.strptime: sp_strptime, int.from_bytes: sp_int_from_bytes,
     _copy.deepcopy: sp_deepcopy, _copy.copy: sp_copy,
 }
 SPECIAL_METHODS = {}      # function object of a classmethod -> model(it, fr, cls, *args)
